@@ -16,7 +16,7 @@ const ID = "C02"
 func TestMain(m *testing.M) { rep.Main(m, ID) }
 
 func opts() sim.GenOpts {
-	o := sim.GenOpts{MaxSteps: 7, Retries: true, Preconds: true, SetupFails: true, Redirects: true}
+	o := sim.GenOpts{MaxSteps: 7, Retries: true, Preconds: true, SetupFails: true, Redirects: true, LookalikeNames: true}
 	if rep.Thorough() {
 		o.MaxSteps = 12
 	}
